@@ -127,9 +127,10 @@ impl Indexable for ast::Include {
         let parse = ctx.db.parse(include_file_id);
         let source_file = ast::SourceFile::cast(parse.syntax_node())?;
 
-        ctx.push_file(include_file_id);
-        source_file.index(ctx);
-        ctx.pop_file();
+        if ctx.push_file(include_file_id) {
+            source_file.index(ctx);
+            ctx.pop_file();
+        }
 
         None
     }
